@@ -1,4 +1,4 @@
-"""C06 - no bytes from a peer can panic or wedge a receiver (BMP connection)."""
+"""C06 - no bytes from a peer or file can panic or wedge a receiver: the BMP connection (engine bstream), the BGP receiver (bgprx), the MRT reader (mrtrx)."""
 from props.bstream_common import *
 PROPS_FILE = "Props_C06.v"
 RULE = ("hostile byte streams through the real BMP connection handler: valid multi-message streams with mutated length / version / type / flag / "
@@ -13,7 +13,14 @@ RULE = ("hostile byte streams through the real BMP connection handler: valid mul
         "rejects (more than the 10 recent parse errors the router's page keeps); one in five then gets a byte mutation. An HTTP client (op G: GET router list, "
         "GET the router's page, render the metrics, through the real request processors) visits after the last byte, between messages or anywhere: expected "
         "a page each time, listing min(#rejected, 10) parse errors oldest first - never a panic. "
-        "A case is non-trivial when at least one complete header was read and the stream is not a pristine valid one; distinct = distinct case text")
+        "A case is non-trivial when at least one complete header was read and the stream is not a pristine valid one; distinct = distinct case text. "
+        "Engine bgprx (BGP receiver): a BGP peer over real loopback TCP against the real handle_connection: OPEN / KEEPALIVE, UPDATEs of C04's proved encoder, "
+        "KEEPALIVEs, NOTIFICATIONs, then a frame routecore refuses (unknown type, ROUTE-REFRESH, 18-octet frame, KEEPALIVE with a body, cut UPDATE / OPEN, wrong "
+        "marker), a length field below 18, a partial frame, FIN or RST - whole update trace compared; and mutated / truncated / duplicated / random streams and "
+        "hostile handshakes - compared: no panic, handle_connection returned, live_sessions as found, trace empty or ending with the session's Withdraw. "
+        "Engine mrtrx (MRT reader): dump and update files (plain, gzip, bzip2) cut inside any record, with unsupported types / subtypes, lengths beyond the "
+        "file, broken or shortened compressed streams, trailing garbage, random octets, empty files, flipped octets; an earlier good file must keep its routes, a "
+        "later one must be imported exactly, every enqueuer answered, the queue alive at the end")
 
 
 def mutate(rng, items, bounds):
@@ -278,6 +285,22 @@ def corpus():
 
 
 ENGINES = [{"name": "bstream", "gen": gen_all, "corpus": corpus, "nontrivial": nontrivial, "classify": classify, "shards": 12}]
+# the BGP receiver: hostile octets through the real handle_connection over loopback TCP (UPDATEs from the same pool of C04's encoder)
+from props import bgprx_common
+ENGINES.append(bgprx_common.engine(update_pool))
+_bstream_signature = known_signature
+
+
+def known_signature(k, engine, case, mo, spec, im):
+    return bgprx_common.known_signature(k, engine, case, mo, spec, im) or _bstream_signature(k, engine, case, mo, spec, im)
+
+
+# the MRT reader: hostile files (cut, damaged headers, broken compression, random octets) through the real mrt-file-in unit
+from props import mrtrx_common
+ENGINES.append(mrtrx_common.engine())
+EXTRAS = list(globals().get("EXTRAS", [])) + [bgprx_common.burst]
+TRUSTED_BASE = TRUSTED_BASE + [bgprx_common.BGPRX_TRUSTED, mrtrx_common.MRTRX_TRUSTED]
+ASSUMPTIONS = ASSUMPTIONS + bgprx_common.BGPRX_ASSUMPTIONS + mrtrx_common.MRTRX_ASSUMPTIONS
 LEVEL_TEXT = ("Theorems over ALL scripts of read events and every parser, for the model of the BMP connection handler (framing, is_fatal table, read loop, "
               "message dispatch): no panic site is reachable in the repaired code; the read loop terminates on every script (end of file ends the session "
               "instead of being re-read); every connection ends in the post-loop cleanup; it ends only for end of file, unit shutdown, a fatal error kind or "
@@ -286,9 +309,22 @@ LEVEL_TEXT = ("Theorems over ALL scripts of read events and every parser, for th
               "order, so the router's page requested after any k read events of any script is a page with at most 10 entries (never a panic). "
               "Kernel-checked, axiom-free. The code before the repair: refuted by a 5-byte header with length < 5 (reproduced on the real code: panic at "
               "io.rs `&mut msg_buf[5..]`), and proved to have no other panic. Tied to the real read_from_router by thousands of hostile streams per run, each "
-              "in its own task with a wedge/stuck watchdog.")
+              "in its own task with a wedge/stuck watchdog. "
+              "BGP receiver (Bgp/BgpRxModel.v): over ALL octet streams, every way the stream ends, EVERY function put in for routecore's parser and FSM (that sends no "
+              "Message::Attributes) and every order in which the select! loop sees ticks and messages: no panic in rotonda's own code; the loop never runs out of events while "
+              "the session still owes it its end; once the peer has closed or reset the connection handle_connection returns through the block after the loop - unless "
+              "routecore itself panics - with the state BgpSessionModel gives for the events seen (Bulks of own routes, one Withdraw iff negotiated and not rejected, the key "
+              "out of live_sessions); a refused frame is the last thing looked at; a length field below 18 parks the session until the stream ends; an accepted UPDATE leaves "
+              "as one Bulk of exactly the events of C04's decoder. Refuted for the code before repair 900a933 (the FSM lets go of the connection without ConnectionLost: the "
+              "loop waited for ever) and, with routecore as observed, for a second OPEN (todo!() in routecore: known finding). "
+              "MRT reader (Mrt/MrtModel.v): a hostile file is unreadable or a prefix of its records; C06_mrt_file_is_local: the queue behind it runs as on its own, its "
+              "contribution is a prefix of the undamaged file's, the RIB is built from exactly these updates.")
 DESIGN_REF = "DESIGN.md section 6, C06"
 LEVEL_NOTE = ("Trusted: Coq kernel, extraction + OCaml driver, Rust harness and generators. PARTIAL: the insides of routecore's BMP/BGP parsers and of tokio are "
-              "exercised on every case but not modelled, so 'no panic anywhere below' is explored, not proved; the BGP (bgp_tcp_in) and MRT (mrt_file_in) "
-              "receivers are not covered by this engine; allocation of a hostile declared length (up to 4 GiB, before any byte of the body arrives) is noted, not run.")
-TECHNIQUE = "Coq proof by induction over read-event scripts (termination measure, unreachable panic sites) + model/implementation correspondence on hostile streams"
+              "exercised on every case but not modelled, so 'no panic anywhere below' is explored, not proved - and it does not hold: routecore 0.5.1 panics on a second OPEN, "
+              "on an OPEN with untidy capabilities, on a connection reset before the session exists (known findings, reproduced on every run); routecore's BGP FSM and MRT "
+              "iterators are arguments / per-damage descriptions, tied to the real code by the engines only; timers, gate events during a BGP session (engine bgpend) and "
+              "the accept loop are outside the BGP byte model; allocation of a hostile declared length (BMP: up to 4 GiB before any byte of the body arrives; MRT: a "
+              "decompression bomb) is noted, not run.")
+TECHNIQUE = ("Coq proof by induction over read-event scripts / octet streams / schedules (termination measure, unreachable panic sites, routecore as a function "
+             "argument) + model/implementation correspondence on hostile BMP streams, BGP connections over loopback TCP and damaged MRT files")
